@@ -404,7 +404,15 @@ class Engine:
         if self._ctx_class is None:
             from asphalt.core import Context
 
-            self._ctx_class = type("BagContext", (Context,), {"__len__": lambda self: 0}) if self.p.get("falsy_contexts") else Context
+            ns: dict[str, Any] = {}
+            if self.p.get("falsy_contexts"):
+                ns["__len__"] = lambda self: 0
+            if self.p.get("equal_contexts"):
+                # contexts with value semantics (think: compared by a request id): every context of the history compares and
+                # hashes equal to every other - parents, children, siblings - and they are different contexts all the same
+                ns["__eq__"] = lambda a, b: isinstance(b, Context)
+                ns["__hash__"] = lambda a: 13
+            self._ctx_class = type("UserContext", (Context,), ns) if ns else Context
         return self._ctx_class
 
     def check_kept_events(self) -> None:
@@ -1232,6 +1240,7 @@ def default_params(rng: Any, **over: Any) -> dict[str, Any]:
         "apis": list(ALL_APIS),
         "equal_roots": rng.random() < 0.3,
         "falsy_contexts": rng.random() < 0.2,
+        "equal_contexts": rng.random() < 0.15,
     }
     p.update(over)
     return p
